@@ -8,6 +8,7 @@ Model (JSON-able):
           "cases": [case...]}
   case = {"stage": int, "refs": [ref...], "args": [token...], "perms": [[indices into refs]...]}
   ref  = {"kind": "comp", "p": producer index, "file": None|str, "method": str, "decl": "abs"|"rel"}
+         (file == "" is the producer spelled with a trailing separator before the method: `P/:ref`, `stageN.P/:ref`)
        | {"kind": "data", "file": str, "method": "ref"|"output"}
   token = ["lit", text] | ["ref", ref index, "abs"|"rel"]
 Every (case, permutation) becomes one consumer component `k<case>x<perm>q` of the generated workflow,
@@ -34,6 +35,8 @@ def gen_exp(rng, mode: str, n_cases: int = 3) -> Dict[str, Any]:
     rng.shuffle(pool)
     pool = pool[: rng.randint(3, 7)]
     n_stage = rng.choice([1, 2, 2, 3])
+    if mode == "trailsep":
+        n_stage = rng.choice([2, 2, 3])
     prods: List[Dict[str, Any]] = []
     used = set()
     for i in range(rng.randint(3, 7)):
@@ -51,6 +54,12 @@ def gen_exp(rng, mode: str, n_cases: int = 3) -> Dict[str, Any]:
     remap = {s: k for k, s in enumerate(sorted({p["stage"] for p in prods}))}
     for p in prods:
         p["stage"] = remap[p["stage"]]
+    if mode == "trailsep" and not _same_name_pairs(prods):
+        # make sure some name is shared by an earlier-stage producer and a later-stage one
+        later = [p for p in prods if p["stage"] > 0]
+        if later:
+            q = rng.choice(later)
+            prods.append({"name": q["name"], "stage": rng.randrange(q["stage"]), "stdout": "", "files": {}})
     names = [p["name"] for p in prods]
     for i, p in enumerate(prods):
         p["stdout"] = _content(rng, names, "so%d" % i)
@@ -59,13 +68,36 @@ def gen_exp(rng, mode: str, n_cases: int = 3) -> Dict[str, Any]:
         for _ in range(40):
             case = _gen_case(rng, exp, mode)
             hz = hazards(exp, case)
-            if mode == "clean" and hz:
+            if mode in ("clean", "trailsep") and hz:
                 continue
             if mode == "hazard" and not hz:
                 continue
             break
         exp["cases"].append(case)
     return exp
+
+
+def _same_name_pairs(prods) -> List[Tuple[int, int]]:
+    """(i, j): producers of the same name, i in an earlier stage than j."""
+    return [(i, j) for i, a in enumerate(prods) for j, b in enumerate(prods)
+            if a["name"] == b["name"] and a["stage"] < b["stage"]]
+
+
+def trailing_separator_kind(exp, case) -> str:
+    """'' | 'alone' | 'next-to-same-name': does the argument string use a `:ref` reference whose producer is spelled
+    with a trailing separator (`P/:ref`), and is a DIFFERENT producer of the same name referenced next to it?"""
+    prods = exp["producers"]
+    used = {t[1] for t in case["args"] if t[0] == "ref"}
+    ts = [ri for ri in used if case["refs"][ri]["kind"] == "comp" and case["refs"][ri]["file"] == ""]
+    if not ts:
+        return ""
+    for ri in ts:
+        a = case["refs"][ri]
+        for rj in used:
+            b = case["refs"][rj]
+            if b["kind"] == "comp" and b["p"] != a["p"] and prods[b["p"]]["name"] == prods[a["p"]]["name"]:
+                return "next-to-same-name"
+    return "alone"
 
 
 def _content(rng, names, tag) -> str:
@@ -82,6 +114,12 @@ def _gen_case(rng, exp, mode) -> Dict[str, Any]:
     names = [p["name"] for p in prods]
     max_stage = max(p["stage"] for p in prods)
     st = rng.randint(0, max_stage)
+    pair = None
+    if mode == "trailsep":
+        pairs = _same_name_pairs(prods)
+        if pairs and rng.random() < 0.6:
+            pair = rng.choice(pairs)
+            st = prods[pair[1]]["stage"]
     cands = [i for i, p in enumerate(prods) if p["stage"] <= st]
     k = rng.choice([2, 2, 3, 3, 4, 4, 5])
     refs: List[Dict[str, Any]] = []
@@ -89,7 +127,26 @@ def _gen_case(rng, exp, mode) -> Dict[str, Any]:
     tries = 0
     preset: Dict[int, str] = {}
     same_stage = [i for i in cands if prods[i]["stage"] == st]
-    if same_stage and rng.random() < 0.2:
+    if mode == "trailsep":
+        # a :ref reference whose producer is spelled with a trailing separator (`P/:ref`, `stageN.P/:ref`: empty file
+        # part) - alone, or (pair) to an earlier-stage producer next to the stage-less spelling of the producer of
+        # the same name in the consumer's own stage
+        if pair is not None:
+            refs.append({"kind": "comp", "p": pair[0], "file": "", "method": "ref", "decl": "abs"})
+            refs.append({"kind": "comp", "p": pair[1], "file": rng.choice([None, None, "", "out.txt"]),
+                         "method": "ref", "decl": rng.choice(["abs", "rel"])})
+            seen.add((pair[0], "", "ref"))
+            seen.add((pair[1], refs[-1]["file"], "ref"))
+            preset[1] = "rel"
+        else:
+            p = rng.choice(cands)
+            same = prods[p]["stage"] == st
+            refs.append({"kind": "comp", "p": p, "file": "", "method": "ref",
+                         "decl": rng.choice(["abs", "rel"]) if same else "abs"})
+            seen.add((p, "", "ref"))
+            if same:
+                preset[0] = rng.choice(["abs", "rel", "rel"])
+    elif same_stage and rng.random() < 0.2:
         # a direct reference data/<P> next to the stage-less spelling of the same-stage producer P
         p = rng.choice(same_stage)
         refs.append({"kind": "comp", "p": p, "file": None, "method": "ref", "decl": rng.choice(["abs", "rel"])})
@@ -115,6 +172,8 @@ def _gen_case(rng, exp, mode) -> Dict[str, Any]:
         file = rng.choice([None, None, None] + FILES + [rng.choice(names), "d/" + rng.choice(names)])
         if method in ("copy", "link") and rng.random() < 0.5:
             file = rng.choice(FILES)
+        if mode == "trailsep" and method == "ref" and rng.random() < 0.25:
+            file = ""
         key = (p, file, method)
         if key in seen:
             continue
@@ -223,6 +282,9 @@ def ref_value(exp, case, ri, inst: str) -> List[str]:
         c = p["stdout"] if r["file"] is None else p["files"][r["file"]]
         return sorted({c.rstrip("\n"), c})
     base = "%s/stages/stage%d/%s" % (inst, p["stage"], p["name"])
+    if r["file"] == "":
+        # `P/:ref`: the producer's directory; the separator the user wrote may or may not be kept (both accepted)
+        return [base + "/", base]
     return [base if r["file"] is None else "%s/%s" % (base, r["file"])]
 
 
